@@ -28,6 +28,30 @@ CHECKS = {
    "C14": dict(level="exploration", technique="bounded stand-in: run-time contract of topological_sort/sort_classes evaluated on the real functions over an exhaustive small scope (deductive obligations for the no-dup invariant planned, not built)",
    text="Contract no-duplicate / complete / parents-first / has_cycle-iff-cyclic checked on the real topological_sort for every source dict over <= 3 nodes (all key orders, parent sequences with repeats and self-loops) and a slice of the 4-node ones; sort_classes and add_kernels on real class graphs of every kind (fieldless structs with dependents, arrays, refs, unions, _depends_on, cycles) for several root orders, including compilation. Bounded, not proved.",
    note="Not a proof: small-scope exhaustive enumeration; trusted: DFS cycle oracle, host compiler.", ref="5 C14"),
+   "C01": dict(level="exploration", technique="bounded stand-in: run-time contracts on real objects of a grammar slice (documented-layout decoder as oracle, poisoned buffers, views vs handles, misuse catalogue); deductive obligations on the underlying layout functions are being added (see evidence)",
+   text="Read-back through every accessor equals the constructor argument. Decided in this version by the bounded native part only: types of the grammar slice x generated values x input forms x placements with allocation history; every byte of the buffer is compared. Labelled bounded, never counted as proved.",
+   note="Not a proof. Trusted: checks/layoutdec.py (decoder written from the docs). Known findings are listed in known_findings.json.", ref="5 C01, 4.3"),
+   "C03": dict(level="exploration", technique="bounded stand-in: run-time contracts on real objects of a grammar slice (documented-layout decoder as oracle, poisoned buffers, views vs handles, misuse catalogue); deductive obligations on the underlying layout functions are being added (see evidence)",
+   text="Bytes change only inside the object's extent or in regions allocated during construction; parts nest and siblings are disjoint; reported size equals extent. Decided in this version by the bounded native part only: types of the grammar slice x generated values x input forms x placements with allocation history; every byte of the buffer is compared. Labelled bounded, never counted as proved.",
+   note="Not a proof. Trusted: checks/layoutdec.py (decoder written from the docs). Known findings are listed in known_findings.json.", ref="5 C03, 4.3"),
+   "C05": dict(level="exploration", technique="bounded stand-in: run-time contracts on real objects of a grammar slice (documented-layout decoder as oracle, poisoned buffers, views vs handles, misuse catalogue); deductive obligations on the underlying layout functions are being added (see evidence)",
+   text="The documented-layout decoder recovers the written value; every part is slot-aligned. Decided in this version by the bounded native part only: types of the grammar slice x generated values x input forms x placements with allocation history; every byte of the buffer is compared. Labelled bounded, never counted as proved.",
+   note="Not a proof. Trusted: checks/layoutdec.py (decoder written from the docs). Known findings are listed in known_findings.json.", ref="5 C05, 4.3"),
+   "C06": dict(level="exploration", technique="bounded stand-in: run-time contracts on real objects of a grammar slice (documented-layout decoder as oracle, poisoned buffers, views vs handles, misuse catalogue); deductive obligations on the underlying layout functions are being added (see evidence)",
+   text="A view from (buffer, offset) equals the handle in value, shape, strides, size; writes through either are seen through the other. Decided in this version by the bounded native part only: types of the grammar slice x generated values x input forms x placements with allocation history; every byte of the buffer is compared. Labelled bounded, never counted as proved.",
+   note="Not a proof. Trusted: checks/layoutdec.py (decoder written from the docs). Known findings are listed in known_findings.json.", ref="5 C06, 4.3"),
+   "C08": dict(level="exploration", technique="bounded stand-in: run-time contracts on real objects of a grammar slice (documented-layout decoder as oracle, poisoned buffers, views vs handles, misuse catalogue); deductive obligations on the underlying layout functions are being added (see evidence)",
+   text="Reference histories: bind-to-existing aliases, bind-to-value/foreign copies, null encodings, resolution after growth. Decided in this version by the bounded native part only: types of the grammar slice x generated values x input forms x placements with allocation history; every byte of the buffer is compared. Labelled bounded, never counted as proved.",
+   note="Not a proof. Trusted: checks/layoutdec.py (decoder written from the docs). Known findings are listed in known_findings.json.", ref="5 C08, 4.3"),
+   "C09": dict(level="exploration", technique="bounded stand-in: run-time contracts on real objects of a grammar slice (documented-layout decoder as oracle, poisoned buffers, views vs handles, misuse catalogue); deductive obligations on the underlying layout functions are being added (see evidence)",
+   text="Copy-construction in same/other buffer/context: equal value, disjoint storage, writes do not show through. Decided in this version by the bounded native part only: types of the grammar slice x generated values x input forms x placements with allocation history; every byte of the buffer is compared. Labelled bounded, never counted as proved.",
+   note="Not a proof. Trusted: checks/layoutdec.py (decoder written from the docs). Known findings are listed in known_findings.json.", ref="5 C09, 4.3"),
+   "C10": dict(level="exploration", technique="bounded stand-in: run-time contracts on real objects of a grammar slice (documented-layout decoder as oracle, poisoned buffers, views vs handles, misuse catalogue); deductive obligations on the underlying layout functions are being added (see evidence)",
+   text="Assigning a fitting leaf through handle or view changes exactly that leaf (value, decoder and whole-buffer byte comparison). Decided in this version by the bounded native part only: types of the grammar slice x generated values x input forms x placements with allocation history; every byte of the buffer is compared. Labelled bounded, never counted as proved.",
+   note="Not a proof. Trusted: checks/layoutdec.py (decoder written from the docs). Known findings are listed in known_findings.json.", ref="5 C10, 4.3"),
+   "C11": dict(level="exploration", technique="bounded stand-in: run-time contracts on real objects of a grammar slice (documented-layout decoder as oracle, poisoned buffers, views vs handles, misuse catalogue); deductive obligations on the underlying layout functions are being added (see evidence)",
+   text="Misuse catalogue (bad index, wrong-length update, too-large string, non-member union, wrong owner) raises and leaves every byte unchanged. Decided in this version by the bounded native part only: types of the grammar slice x generated values x input forms x placements with allocation history; every byte of the buffer is compared. Labelled bounded, never counted as proved.",
+   note="Not a proof. Trusted: checks/layoutdec.py (decoder written from the docs). Known findings are listed in known_findings.json.", ref="5 C11, 4.3"),
 }
 NA = {}
 
